@@ -1,6 +1,7 @@
 package main
 
 import (
+	"os"
 	"fmt"
 	"go/ast"
 	"go/parser"
@@ -374,7 +375,10 @@ func (r *UnitRun) finish(st *State, vals []Val, n *ast.ReturnStmt) {
 			func() {
 				defer func() {
 					if x := recover(); x != nil {
-						if _, ok := x.(toolLimit); ok {
+						if tl, ok := x.(toolLimit); ok {
+							if os.Getenv("QV_DEBUG") != "" {
+								fmt.Fprintf(os.Stderr, "have %d of %s skipped: %s\n", i, r.unit.Name, string(tl))
+							}
 							return // a local is not defined on this path
 						}
 						panic(x)
@@ -385,6 +389,9 @@ func (r *UnitRun) finish(st *State, vals []Val, n *ast.ReturnStmt) {
 				// returned values are res0, res1, ...
 				for i := range res {
 					henv.bound[fmt.Sprintf("res%d", i)] = bound[fmt.Sprintf("res%d", i)]
+				}
+				if sv, ok := st.ghost["self"]; ok {
+					henv.bound["self"] = sv
 				}
 				goal := r.specBool(henv, c, "have of "+r.unit.Name)
 				ost := st
